@@ -411,6 +411,12 @@ impl FileSetBuilder {
     }
 
     fn spawn_inner(self, metrics: Arc<InternalMetrics>) -> Result<FileSetInner, Error> {
+        // Under simulation the three constructors below hand out what the simulator injected for this thread, if anything
+        #[cfg(emit_rs_emit_verif)]
+        use self::verif::{
+            SwitchClock as SystemClock, SwitchFilesystem as StdFilesystem, SwitchRng as RandRng,
+        };
+
         let (dir, file_prefix, file_ext) = dir_prefix_ext(self.file_set).map_err(Error::new)?;
 
         let mut worker = Worker::new(
@@ -1997,6 +2003,134 @@ pub mod verif {
 
         fn sync_all(&mut self) -> io::Result<()> {
             self.0.sync_all()
+        }
+    }
+
+    thread_local! {
+        static INJECTED_FS: std::cell::RefCell<Option<Box<dyn SimFilesystem>>> = const { std::cell::RefCell::new(None) };
+        static INJECTED_CLOCK: std::cell::RefCell<Option<Box<dyn emit::clock::ErasedClock + Send + Sync>>> = const { std::cell::RefCell::new(None) };
+        static INJECTED_RNG: std::cell::RefCell<Option<Box<dyn emit::rng::ErasedRng + Send + Sync>>> = const { std::cell::RefCell::new(None) };
+    }
+
+    /**
+    Hand the next [`FileSetBuilder::spawn`] on this thread a filesystem, clock and rng.
+
+    The production `spawn` then runs as it is, over these instead of the real filesystem, system clock and random source.
+    */
+    pub fn inject(
+        fs: impl SimFilesystem,
+        clock: impl Clock + Send + Sync + 'static,
+        rng: impl Rng + Send + Sync + 'static,
+    ) {
+        INJECTED_FS.with(|c| *c.borrow_mut() = Some(Box::new(fs)));
+        INJECTED_CLOCK.with(|c| *c.borrow_mut() = Some(Box::new(clock)));
+        INJECTED_RNG.with(|c| *c.borrow_mut() = Some(Box::new(rng)));
+    }
+
+    /**
+    Stands in for [`StdFilesystem`] inside [`FileSetBuilder::spawn`]: the injected filesystem, or the real one.
+    */
+    pub struct SwitchFilesystem(Box<dyn SimFilesystem>);
+
+    impl SwitchFilesystem {
+        pub fn new() -> Self {
+            SwitchFilesystem(
+                INJECTED_FS
+                    .with(|c| c.borrow_mut().take())
+                    .unwrap_or_else(|| Box::new(StdFs)),
+            )
+        }
+    }
+
+    impl Filesystem for SwitchFilesystem {
+        fn create_dir_all(&self, path: &Path) -> io::Result<()> {
+            self.0.create_dir_all(path)
+        }
+
+        fn sync_parent(&self, path: &Path) -> io::Result<()> {
+            self.0.sync_parent(path)
+        }
+
+        fn read_dir_files(&self, path: &Path) -> io::Result<Box<dyn Iterator<Item = PathBuf>>> {
+            Ok(Box::new(self.0.read_dir_files(path)?.into_iter()))
+        }
+
+        fn remove_file(&self, path: &Path) -> io::Result<()> {
+            self.0.remove_file(path)
+        }
+
+        fn open_new(&self, path: &Path) -> io::Result<Box<dyn File + Send + Sync>> {
+            Ok(Box::new(FileAdapter(self.0.open_new(path)?)))
+        }
+
+        fn open_existing(&self, path: &Path) -> io::Result<Box<dyn File + Send + Sync>> {
+            Ok(Box::new(FileAdapter(self.0.open_existing(path)?)))
+        }
+    }
+
+    /**
+    Stands in for [`SystemClock`] inside [`FileSetBuilder::spawn`]: the injected clock, or the real one.
+    */
+    pub struct SwitchClock(
+        Option<Box<dyn emit::clock::ErasedClock + Send + Sync>>,
+        SystemClock,
+    );
+
+    impl SwitchClock {
+        pub fn new() -> Self {
+            SwitchClock(
+                INJECTED_CLOCK.with(|c| c.borrow_mut().take()),
+                SystemClock::new(),
+            )
+        }
+    }
+
+    impl Clock for SwitchClock {
+        fn now(&self) -> Option<emit::Timestamp> {
+            match self.0 {
+                Some(ref clock) => clock.now(),
+                None => self.1.now(),
+            }
+        }
+    }
+
+    /**
+    Stands in for [`RandRng`] inside [`FileSetBuilder::spawn`]: the injected rng, or the real one.
+    */
+    pub struct SwitchRng(
+        Option<Box<dyn emit::rng::ErasedRng + Send + Sync>>,
+        RandRng,
+    );
+
+    impl SwitchRng {
+        pub fn new() -> Self {
+            SwitchRng(
+                INJECTED_RNG.with(|c| c.borrow_mut().take()),
+                RandRng::new(),
+            )
+        }
+    }
+
+    impl Rng for SwitchRng {
+        fn fill<A: AsMut<[u8]>>(&self, arr: A) -> Option<A> {
+            match self.0 {
+                Some(ref rng) => rng.fill(arr),
+                None => self.1.fill(arr),
+            }
+        }
+
+        fn gen_u64(&self) -> Option<u64> {
+            match self.0 {
+                Some(ref rng) => rng.gen_u64(),
+                None => self.1.gen_u64(),
+            }
+        }
+
+        fn gen_u128(&self) -> Option<u128> {
+            match self.0 {
+                Some(ref rng) => rng.gen_u128(),
+                None => self.1.gen_u128(),
+            }
         }
     }
 
